@@ -5,6 +5,9 @@
 mod util;
 mod front;
 mod c13;
+mod c03;
+mod c02;
+mod inputs;
 
 #[path = "/repo/harper-ls/src/git_commit_parser.rs"]
 mod git_commit_parser;
@@ -19,6 +22,8 @@ fn main() {
     let a = util::Args::parse(&argv[2..]);
     match argv[1].as_str() {
         "c13" => c13::main(&a),
+        "c03" => c03::main(&a),
+        "c02" => c02::main(&a),
         other => {
             eprintln!("unknown subcommand {other}");
             std::process::exit(2);
